@@ -67,5 +67,5 @@ func (s *Scenario) Summary() map[string]any {
 		pm["blocks"] = blocks
 		plans = append(plans, pm)
 	}
-	return map[string]any{"plans": plans, "pollUs": s.PollUs, "writeLatUs": s.WriteLatUs}
+	return map[string]any{"plans": plans, "pollUs": s.PollUs, "writeLatUs": s.WriteLatUs, "cancelStartCtxUs": s.CancelStartUs}
 }
